@@ -514,6 +514,10 @@ func (propC16) Check(c *Case) (*Violation, *RunInfo) {
 				}
 				ri.count("non_identity_orders", len(sim.Log))
 			}
+			if len(hist) == 0 || !hist[len(hist)-1].Render {
+				ri.Vacuous = true
+				continue
+			}
 			last := &hist[len(hist)-1]
 			if viol != nil {
 				continue
